@@ -3,6 +3,7 @@ package main
 import (
 	"context"
 	"fmt"
+	"math"
 	"runtime"
 	"strings"
 	"sync"
@@ -68,9 +69,15 @@ func scriptCfg(v, ratio int, prime uint64, e *vh.Env) cfg {
 	return cfg{variant: v, ratio: ratio, prime: prime, keys: []interface{}{pool[0], pool[1]}}
 }
 
+// rwRatio at the edge of Go's int ("any number of readers, one writer"): the code computes size-cur and cur+n in int
+var bigRatios = []int{math.MaxInt, math.MaxInt - 1, math.MaxInt32, 1 << 62}
+
 func randomCfg(v int, e *vh.Env) cfg {
 	ratios := []int{1, 2, 2, 3, 3, 3, 10}
 	cf := cfg{variant: v, ratio: ratios[e.Rnd.Intn(len(ratios))]}
+	if e.Rnd.Intn(8) == 0 {
+		cf.ratio = bigRatios[e.Rnd.Intn(len(bigRatios))]
+	}
 	if v != 0 {
 		ps := []uint64{1, 2, 2, 73, 0, 5}
 		cf.prime = ps[e.Rnd.Intn(len(ps))]
